@@ -494,6 +494,8 @@ Qed.
 Lemma append_fitness_indices : forall (pop : list (agent P)) fs,
   map a_index (append_fitness pop fs) = map a_index pop.
 Proof. induction pop as [|a t IH]; intros fs; cbn; [reflexivity|]. f_equal. apply IH. Qed.
+Lemma mutate_indices (mut : agent P -> P) pop : map a_index (mutate mut pop) = map a_index pop.
+Proof. unfold mutate. rewrite map_map. reflexivity. Qed.
 Lemma append_fitness_length (pop : list (agent P)) fs : length (append_fitness pop fs) = length pop.
 Proof. rewrite <- (map_length a_index), append_fitness_indices, map_length. reflexivity. Qed.
 
@@ -504,8 +506,9 @@ Lemma gen_step_inv rkf c (pop : list (agent P)) g :
   (forall x, In x (map a_index r) -> In x (map a_index pop) \/ (max_id pop < x)%Z).
 Proof.
   intros Hp Hne. cbn zeta. unfold gen_step.
-  destruct (select_with (rkf (means c pop)) c pop (fst g)) as [[e np]|] eqn:E.
-  - rewrite append_fitness_indices, append_fitness_length.
+  destruct (select_with (rkf (means c pop)) c pop (fst (fst g))) as [[e np]|] eqn:E.
+  - rewrite append_fitness_indices, mutate_indices, <- (map_length a_index (append_fitness _ _)),
+      append_fitness_indices, mutate_indices, map_length.
     pose proof (indices_fresh_lemma _ _ _ _ _ _ E) as (Hf & _ & _ & _ & Hin & Hnd).
     split; [exact Hnd|]. split; [eapply size_exact_lemma; eauto|].
     intros x Hx. destruct (select_shape _ _ _ _ _ _ E) as (a0 & Ha0 & Ee & Enp).
@@ -515,7 +518,7 @@ Proof.
   - apply select_none in E. congruence.
 Qed.
 
-Theorem generations_lemma rkf c (gs : list (list (list nat) * list (list Q))) :
+Theorem generations_lemma rkf c (gs : list (@generation P)) :
   0 < psize c -> forall (pop : list (agent P)), pop <> [] -> NoDup (map a_index pop) ->
   let r := run_generations rkf c pop gs in
   NoDup (map a_index r) /\ r <> [] /\ (gs <> [] -> length r = psize c).
@@ -531,7 +534,7 @@ Qed.
 
 (* ---- an index handed out once is never handed out again, over the whole history ---- *)
 Fixpoint trace (rkf : list Q -> list nat) (c : cfg) (pop : list (agent P))
-         (gs : list (list (list nat) * list (list Q))) : list (list (agent P)) :=
+         (gs : list (@generation P)) : list (list (agent P)) :=
   match gs with
   | [] => [pop]
   | g :: t => pop :: trace rkf c (gen_step rkf c pop g) t
@@ -550,9 +553,9 @@ Lemma gen_step_fresh rkf c (pop : list (agent P)) g : pop <> [] ->
   (forall x, In x (fresh_of c r) -> (max_id pop < x)%Z) /\ (0 < nsel c -> (max_id pop < max_id r)%Z).
 Proof.
   intros Hne. cbn zeta. unfold gen_step, fresh_of.
-  destruct (select_with (rkf (means c pop)) c pop (fst g)) as [[e np]|] eqn:E;
+  destruct (select_with (rkf (means c pop)) c pop (fst (fst g))) as [[e np]|] eqn:E;
     [|apply select_none in E; congruence].
-  rewrite append_fitness_indices.
+  rewrite append_fitness_indices, mutate_indices.
   pose proof (indices_fresh_lemma _ _ _ _ _ _ E) as (Hf & _). cbn zeta in Hf.
   split.
   - intros x Hx. rewrite Hf in Hx. apply in_map_iff in Hx. destruct Hx as (i & <- & _). lia.
@@ -560,7 +563,7 @@ Proof.
     assert (Hin : In (max_id pop + 1 + Z.of_nat 0)%Z (map a_index np)).
     { apply (In_skipn_In _ (off c)). rewrite Hf. apply in_map_iff. exists 0. split; [reflexivity|].
       apply in_seq. lia. }
-    rewrite <- (append_fitness_indices np (snd g)) in Hin.
+    rewrite <- (mutate_indices (snd (fst g)) np), <- (append_fitness_indices _ (snd g)) in Hin.
     apply max_id_ge_idx in Hin. lia.
 Qed.
 
